@@ -29,15 +29,15 @@ import copy as _copy
 import heap_common as H
 
 PID = "C07"
-LEAN_TARGETS = ["SpecVerif.Props.C07"]
-AUDIT = [("SpecVerif.Props.C07", "SpecVerif.Props.C07")]
+LEAN_TARGETS = ["SpecVerif.Props.C07Twin"]  # imports SpecVerif.Props.C07
+AUDIT = [("SpecVerif.Props.C07", "SpecVerif.Props.C07Twin")]
 DRIVER = "Drivers/Heap.lean"
 REQUIRED_THEOREMS = [
     "SpecVerif.Props.C07.frozen_never_changes",
     "SpecVerif.Props.C07.frozen_inplace_rejected",
     "SpecVerif.Props.C07.frozen_inplace_no_effect",
     "SpecVerif.Props.C07.frozen_cow_distinct",
-    "SpecVerif.Props.C07.frozen_cow_equals_twin_partial",
+    "SpecVerif.Props.C07.frozen_cow_equals_twin",
 ]
 RULE = (
     "case = class table whose main class is frozen=True (nested class frozen in 30%, plain subclass inheriting it, spec "
@@ -56,14 +56,12 @@ ASSUMPTIONS = [
     "user callbacks are pure; bool values are not generated",
 ]
 OPEN_STATEMENTS = [
-    "frozen_cow_equals_twin_Full (Props/C07.lean): a copy-on-write operation gives the same result and final heap on the "
-    "frozen table and on its non-frozen twin -- proved for deepcopy (frozen_cow_equals_twin_partial) and for the "
-    "operation families listed in docs/C07.md; the remaining families are validated on every run by the twin "
-    "differential of the oracle",
-    "thaw_window_closed_Full: no stored instance keeps the initialisation marker after a successful operation -- proved "
-    "for deepcopy; false on heaps with dangling references (witness dangling_ref_leaves_thawed_copy), hence stated for "
-    "closed heaps; compared on every run (the marker is part of the canonical world)",
-    "cow_never_frozen_error_resetAttr_Full: reset_<a>() on a frozen receiver never fails with FrozenInstanceError",
+    "thaw_window_closed_Full (Props/C07.lean): no stored instance keeps the initialisation marker after a successful "
+    "operation -- proved for deepcopy (thaw_window_closed_partial); false on heaps with dangling references (witness "
+    "dangling_ref_leaves_thawed_copy), hence stated for closed heaps; the marker is part of the canonical world compared "
+    "on every run and the oracle checks it on every instance",
+    "cow_never_frozen_error_resetAttr_Full: reset_<a>() on a frozen receiver never fails with FrozenInstanceError "
+    "(follows from frozen_cow_equals_twin plus 'the unfrozen table never raises FrozenInstanceError'; not assembled)",
 ]
 EXHAUSTIVE = {"quick": False, "thorough": False}
 
@@ -368,7 +366,7 @@ def extra(tier, rng):
 KNOWN_MATCHERS = {}
 
 MANIFEST_ENTRY = {
-    "level_text": "Lean 4 proof, over the heap model with object identities and an explicit thaw window (the __spec_class_initializing__ marker as a flag of the instance node), that for an instance of a frozen class assignment, deletion and every helper called with _inplace=True raise (FrozenInstanceError at the guard) before any effect on a pre-existing object, that no operation whatsoever changes a frozen instance or any other pre-existing object, and that copy-on-write helpers and deepcopy return new objects; the statement that a copy-on-write helper behaves exactly as on the non-frozen twin table is proved for the part listed in docs/C07.md and otherwise validated on every run; tied to /repo by executing generated histories on frozen class tables on the real spec_classes and on the model, comparing outcome class, contents, aliasing and marker after every step, and by re-running every history on the twin classes.",
+    "level_text": "Lean 4 proof, over the heap model with object identities and an explicit thaw window (the __spec_class_initializing__ marker as a flag of the instance node), that for an instance of a frozen class assignment, deletion and every helper called with _inplace=True raise (FrozenInstanceError at the guard) before any effect on a pre-existing object, that no operation whatsoever changes a frozen instance or any other pre-existing object, and that copy-on-write helpers and deepcopy return new objects; that every operation not called in place (all helpers with and without keywords, constructor, deepcopy; every callback fault plan) yields the same result and the same final heap on the frozen class table and on its non-frozen twin (two-run simulation with the thaw windows as the only difference); tied to /repo by executing generated histories on frozen class tables on the real spec_classes and on the model, comparing outcome class, contents, aliasing and marker after every step, and by re-running every history on the twin classes.",
     "level_note": "Trusted: Lean kernel; axioms propext/Classical.choice/Quot.sound only; the hand-written heap model and the correspondence harness. Reading: an in-place call with invalid arguments may raise that error before the frozen guard (it still changes nothing). invalidated_by dependants are outside the modelled grammar and are covered by the twin differential of `extra` only.",
     "technique": "Lean 4 guard-before-write and frame theorems over a hand-written heap model with a thaw window; differential correspondence + frozen-vs-twin differential on the real classes",
 }
